@@ -89,6 +89,8 @@ def run(repo, rep, tier):
     r3 = rep.rule('C04.R3', 'default namespace applied on every operation')
     r5 = rep.rule('C04.R5', 'operation name on the wire = method name = '
                   'adapter suffix')
+    r6 = rep.rule('C04.R6', 'array method parameters are encoded item by '
+                  'item with the scalar encoder')
     r4 = rep.rule('C04.R4', 'parameter values are normalised and the '
                   'server-side parser accepts every element they become')
 
@@ -342,6 +344,49 @@ def run(repo, rep, tier):
         rep.finding(r2, mf.qualname, 'PARAMVALUE list', 'filter', OPS,
                     mf.node.lineno, 'the PARAMVALUE list is not built from '
                     'all parameter tuples')
+
+    # ---- R6: arrays are encoded item by item ------------------------------
+    # A method parameter that is a list must reach the server as the list of
+    # what each item would be as a scalar parameter: the list branch of each
+    # value helper of _methodcall recurses into the same helper per item.
+    helpers = [g for g in mf.nested.values() if any(
+        isinstance(n, ast.If) and 'isinstance(obj, list)' in norm(n.test)
+        for n in walk_no_nested(g.node))]
+    if len(helpers) < 3:
+        raise AnalysisError('_methodcall: value helpers with a list branch '
+                            'not found (%d)' % len(helpers))
+    for g in helpers:
+        r6.sites += 1
+        r6.functions.add(g.fq)
+        for br in walk_no_nested(g.node):
+            if not (isinstance(br, ast.If) and
+                    'isinstance(obj, list)' in norm(br.test)):
+                continue
+            rets = [x for st in br.body for x in ast.walk(st)
+                    if isinstance(x, ast.Return)]
+            falls = [st for st in br.body if isinstance(st, ast.Assign)
+                     and norm(st.targets[0]) == 'obj']
+            for rt in rets:
+                rec = [c for c in ast.walk(rt) if isinstance(c, ast.Call)
+                       and isinstance(c.func, ast.Name) and
+                       c.func.id == g.name]
+                ok = bool(rec) or (isinstance(rt.value, ast.Constant))
+                r6.ob(ok, '%s|%s' % (g.name, norm(rt, 70)),
+                      {'helper': g.name, 'list_branch_return': norm(rt, 90),
+                       'recurses_per_item': bool(rec)})
+                if not ok:
+                    rep.finding(r6, g.qualname, norm(rt, 70), 'array-items',
+                                OPS, rt.lineno,
+                                'the list branch of %s() does not encode '
+                                'the items with %s() itself: an array '
+                                'parameter is not sent as the array of what '
+                                'its items are as scalars' % (g.name,
+                                                              g.name))
+            if not rets and not falls:
+                r6.ob(False, g.name + '|list-branch')
+                rep.finding(r6, g.qualname, norm(br.test), 'array-items',
+                            OPS, br.lineno, 'list branch neither returns '
+                            'nor recurses')
 
     # ---- R4 ---------------------------------------------------------------
     from .. import dtd as dtdmod
